@@ -622,6 +622,8 @@ class CFG(object):
         from . import canon
         names = sorted(flags)
         avoid = set(avoid)
+        self._assume_raw = dict(assume) if assume else None
+        self._assume_inl = {}
         assume = canon.canon_env(assume) if assume else None
         self._keep = frozenset(names)
         start = (src, tuple(flags[n] for n in names))
@@ -651,6 +653,21 @@ class CFG(object):
                     dq.append(st2)
         return None
 
+    def _inline_env(self, raw, nid):
+        """The assumed facts with single-definition locals expanded as they
+        are at node nid (so that they match the expanded test there)."""
+        from . import canon
+        from .dataflow import inline_expr
+        out = {}
+        for k, v in raw.items():
+            try:
+                e = ast.parse(k, mode="eval").body
+            except SyntaxError:
+                continue
+            e2 = inline_expr(self.rd, e, nid, keep=getattr(self, "_keep", ()))
+            out[unparse(e2)] = v
+        return canon.canon_env(out)
+
     def _transfer(self, node, vd, assume=None):
         vd = dict(vd)
         if node.kind in ("true", "false"):
@@ -661,9 +678,19 @@ class CFG(object):
                 env.update(assume)
             v = canon.eval3(node.ast, env)
             if v == U:
-                # the same test with single-definition locals inlined
+                # the same test with single-definition locals inlined - and
+                # the assumed facts expanded the same way at this test
+                env2 = env
+                raw = getattr(self, "_assume_raw", None)
+                if raw:
+                    tn = node.test
+                    if tn not in self._assume_inl:
+                        self._assume_inl[tn] = self._inline_env(raw, tn)
+                    env2 = dict(env)
+                    env2.update(self._assume_inl[tn])
                 v = canon.eval3(self.ctest(node.id,
-                                           keep=getattr(self, "_keep", ())), env)
+                                           keep=getattr(self, "_keep", ())),
+                                env2)
             want = T if node.kind == "true" else F
             if v != U and v != want:
                 return None
@@ -751,4 +778,6 @@ def cfg_of(fi, model=None):
     key = id(fi.node)
     if key not in _CACHE:
         _CACHE[key] = CFG(fi.node, model, fi.qual)
+        _CACHE[key].fi = fi
+        _CACHE[key].model = model
     return _CACHE[key]
